@@ -16,6 +16,8 @@ fs    := 'R' ino {'|' ino ':' node}
 node  := 'D' parent '[' [text '>' ino {',' text '>' ino}] ']' | 'F' hex | 'L' text
 item  := 'o:' path            Opener.OpenFile on the case's opener      → ok:<hex> | fail
        | 'n'                  close the opener, create a new one         → -
+       | 'p:' d ':' name ':' ('f'|'d')   Directory.OpenFile / OpenDirectory(name) on directory inode d
+                                                                         → ok:<hex> | ok-dir | fail
        | 't:' path {',' path} rsync.Transmit of the paths                → per path ok:<hex> | fail, joined by ','
        | 'r:' path {',' path} rsync receiver with non-empty signatures   → per path sink | burn
        | 'cf:' path | 'cd:' path | 'cl:' path   Transition creating a file / directory / link → ok | fail
@@ -94,6 +96,12 @@ def step (st : St) (item : String) : Option (St × String) :=
     let (o, r, _) := st.opener.openFile st.fs path
     pure ({ st with opener := o }, showOpen st.fs r)
   | ["n"] => some ({ st with opener := {} }, "-")
+  | ["p", d, n, k] => do
+    let d ← d.toNat?
+    let name ← decText n
+    match openAt st.fs d name (k == "d") with
+    | .ok i => pure (st, if k == "d" then "ok-dir" else "ok:" ++ content st.fs i)
+    | .error _ => pure (st, "fail")
   | ["t", ps] => do
     let rs := openAll st.fs (← parsePaths ps) {} []
     pure (st, ",".intercalate (rs.map (showOpen st.fs)))
